@@ -493,6 +493,7 @@ def _check_certificate(ref, A, b, Delta, sol, rec, tag):
 
 
 NEWTON_BUDGET = 500
+STALL_KEY = "treigen.solve|secular-equation-loop-does-not-terminate"
 
 
 class _NewtonBudget:
@@ -578,7 +579,14 @@ def _run_treigen(g, tier, seed, rec):
                     except HorizonExceeded:
                         stalled = budget.count > NEWTON_BUDGET
                         rec.branch("treigen:newton-stalled" if stalled else "treigen:wall-horizon")
-                        rec.noverdict(cid, "newton-iteration-budget-%d" % NEWTON_BUDGET if stalled else "horizon")
+                        if stalled:
+                            # the secular-equation loop has no exit: once the update of lambda falls below its floating
+                            # point spacing the iteration is a fixed point with |error| > 1e-9 and never returns
+                            rec.violation(STALL_KEY, cid, {"A": A, "b": b, "Delta": Delta, "iterations": ">%d" % NEWTON_BUDGET,
+                                                           "reference_class": cls})
+                            rec.case(cid, nontrivial=nontrivial, outcome="treigen:does-not-terminate")
+                        else:
+                            rec.noverdict(cid, "horizon")
                         continue
                     except Exception as e:  # noqa
                         fail(exception_key(e), {"error": repr(e)})
@@ -680,7 +688,12 @@ def _run_subspace(g, tier, seed, rec):
                         except HorizonExceeded:
                             stalled = budget.count > NEWTON_BUDGET
                             rec.branch("subspace:newton-stalled" if stalled else "subspace:wall-horizon")
-                            rec.noverdict(cid, "newton-iteration-budget-%d" % NEWTON_BUDGET if stalled else "horizon")
+                            if stalled:
+                                rec.violation(STALL_KEY, cid, {"K": K, "b": b, "Delta": Delta, "vectors": vecs,
+                                                               "iterations": ">%d" % NEWTON_BUDGET, "reference_class": cls})
+                                rec.case(cid, nontrivial=nontrivial, outcome="subspace:does-not-terminate")
+                            else:
+                                rec.noverdict(cid, "horizon")
                             continue
                         except Exception as e:  # noqa
                             fail(exception_key(e), {"error": repr(e)})
